@@ -151,14 +151,35 @@ class FunctionTranslator:
         self.fail(node, 'a condition must be a cond/condM leaf (truthiness is not guessed)')
 
     # ---- statements: each returns a Gallina term of type  res (ctl ST R)  with `st` free
+    # ---- term constructors: plain mode (res) and x-mode (xres: an exception carries the state reached, so that a
+    #      handler - and the caller - see the effects of the part of the body that ran)
+    @property
+    def x(self):
+        return bool(self.s.get('xmode'))
+
+    def t_ok(self, ctl):
+        return '(%s %s)' % ('XOk' if self.x else 'Ok', ctl)
+
+    def t_raise(self, e):
+        return '(XRaise %s st)' % e if self.x else '(Raise %s)' % e
+
+    def t_seq(self, a, b):
+        return '(%s %s (fun st => %s))' % ('xseqc' if self.x else 'seqc', a, b)
+
+    def t_bind(self, m, var, body):
+        """m : res A (a leaf that may raise without touching the state)"""
+        if self.x:
+            return '(xbind (xlift st %s) (fun %s => %s))' % (m, var, body)
+        return '(bind %s (fun %s => %s))' % (m, var, body)
+
     def block(self, stmts):
         if not stmts:
-            return '(Ok (Normal st))'
+            return self.t_ok('(Normal st)')
         first = self.stmt(stmts[0])
         if len(stmts) == 1:
             return first
         rest = self.block(stmts[1:])
-        return '(seqc %s (fun st => %s))' % (first, rest)
+        return self.t_seq(first, rest)
 
     def stmt(self, node):
         key = norm(node)
@@ -167,51 +188,47 @@ class FunctionTranslator:
             self.check_shared(node, key)
             kind, payload = self.stmt_leaves[key]
             if kind == 'skip':
-                return '(Ok (Normal st))'
+                return self.t_ok('(Normal st)')
             if kind == 'set':            # payload: [(var, gallina value)], applied in order
                 lets = ''.join('(let st := %s in ' % self.setter(var, self.fill(val)) for var, val in payload)
-                return lets + '(Ok (Normal st))' + ')' * len(payload)
+                return lets + self.t_ok('(Normal st)') + ')' * len(payload)
             if kind == 'setM':           # payload: (var, gallina res value)
                 var, val = payload
-                return '(bind %s (fun v__ => Ok (Normal %s)))' % (self.fill(val), self.setter(var, 'v__'))
+                return self.t_bind(self.fill(val), 'v__', self.t_ok('(Normal %s)' % self.setter(var, 'v__')))
             if kind == 'raw':
                 return self.fill(payload)
             self.fail(node, 'bad stmt leaf kind')
         if isinstance(node, ast.Expr):
             if isinstance(node.value, ast.Constant) and isinstance(node.value.value, str):
-                return '(Ok (Normal st))'                # docstring
+                return self.t_ok('(Normal st)')                # docstring
             if isinstance(node.value, ast.Call) and norm(node.value.func).startswith(('log.', 'warnings.warn')):
-                return '(Ok (Normal st))'                # logging never changes behaviour
+                return self.t_ok('(Normal st)')                # logging never changes behaviour
             self.fail(node, 'expression statement without a stmt entry')
         if isinstance(node, ast.Pass):
-            return '(Ok (Normal st))'
+            return self.t_ok('(Normal st)')
         if isinstance(node, ast.Assign) and len(node.targets) == 1 and isinstance(node.targets[0], ast.Name):
             var = node.targets[0].id
             if var not in [l[0] for l in self.locals]:
                 self.fail(node, 'assignment to an undeclared local')
             k, t = self.expr(node.value)
-            if k == 'pure':
-                return '(Ok (Normal %s))' % self.setter(var, t)
-            if k == 'res':
-                return '(bind %s (fun v__ => Ok (Normal %s)))' % (t, self.setter(var, 'v__'))
-            if k == 'cond':
-                return '(Ok (Normal %s))' % self.setter(var, t)
-            return '(bind %s (fun v__ => Ok (Normal %s)))' % (t, self.setter(var, 'v__'))
+            if k in ('pure', 'cond'):
+                return self.t_ok('(Normal %s)' % self.setter(var, t))
+            return self.t_bind(t, 'v__', self.t_ok('(Normal %s)' % self.setter(var, 'v__')))
         if isinstance(node, ast.Return):
             if node.value is None:
                 k, t = 'pure', self.s.get('return_none', 'tt')
             else:
                 k, t = self.expr(node.value)
             if k in ('pure', 'cond'):
-                return '(Ok (Ret (st, %s)))' % t
-            return '(bind %s (fun v__ => Ok (Ret (st, v__))))' % t
+                return self.t_ok('(Ret (st, %s))' % t)
+            return self.t_bind(t, 'v__', self.t_ok('(Ret (st, v__))'))
         if isinstance(node, ast.If):
             k, t = self.cond(node.test)
             a = self.block(node.body)
             b = self.block(node.orelse)
             if k == 'cond':
                 return '(if %s then %s else %s)' % (t, a, b)
-            return '(bind %s (fun c__ => if c__ then %s else %s))' % (t, a, b)
+            return self.t_bind(t, 'c__', 'if c__ then %s else %s' % (a, b))
         if isinstance(node, ast.For):
             if node.orelse:
                 self.fail(node, 'for/else')
@@ -225,10 +242,10 @@ class FunctionTranslator:
             pat, sets = targets          # e.g. ("'(i, v)", [('i','i'),('v','v')])
             body = self.block(node.body)
             lets = ''.join('(let st := %s in ' % self.setter(var, val) for var, val in sets)
+            fe = 'xfor_each' if self.x else 'for_each'
             if ik == 'res':         # obtaining the iterator may raise (e.g. iterating a non-iterable)
-                return '(bind %s (fun l__ => for_each l__ st (fun %s st => %s%s%s)))' % (
-                    it, pat, lets, body, ')' * len(sets))
-            return '(for_each %s st (fun %s st => %s%s%s))' % (it, pat, lets, body, ')' * len(sets))
+                return self.t_bind(it, 'l__', '%s l__ st (fun %s st => %s%s%s)' % (fe, pat, lets, body, ')' * len(sets)))
+            return '(%s %s st (fun %s st => %s%s%s))' % (fe, it, pat, lets, body, ')' * len(sets))
         if isinstance(node, ast.With):
             # `with self.lock:` - sequentially the body; the lexical extent feeds the lock-discipline check
             if len(node.items) != 1 or node.items[0].optional_vars is not None or \
@@ -242,6 +259,8 @@ class FunctionTranslator:
         if isinstance(node, ast.While):
             if node.orelse:
                 self.fail(node, 'while/else')
+            if self.x:
+                self.fail(node, 'while-loop in x-mode')
             fuel = self.s.get('fuel')
             if fuel is None:
                 self.fail(node, 'while-loop without a `fuel` entry')
@@ -253,22 +272,23 @@ class FunctionTranslator:
             body = self.block(node.body)
             return '(while_loop %s st (fun st => %s) (fun st => %s))' % (self.fill(fuel), ct, body)
         if isinstance(node, ast.Continue):
-            return '(Ok (Cont st))'
+            return self.t_ok('(Cont st)')
         if isinstance(node, ast.Break):
-            return '(Ok (Brk st))'
+            return self.t_ok('(Brk st)')
         if isinstance(node, ast.Raise):
             if node.exc is None:
                 self.fail(node, 'bare raise outside a handler')
             cls = norm(node.exc.func) if isinstance(node.exc, ast.Call) else norm(node.exc)
             if cls not in self.exceptions:
                 self.fail(node, 'unknown exception class')
-            return '(Raise %s)' % self.exceptions[cls]
+            return self.t_raise(self.exceptions[cls])
         if isinstance(node, ast.Try):
             if node.finalbody or node.orelse:
                 self.fail(node, 'try/finally, try/else')
-            self.check_try(node)
+            if not self.x:
+                self.check_try(node)
             body = self.block(node.body)
-            out = 'Raise e__'
+            out = self.t_raise('e__')
             for h in reversed(node.handlers):
                 cls = norm(h.type) if h.type is not None else None
                 if cls == 'Exception':
@@ -284,8 +304,10 @@ class FunctionTranslator:
                     hbody_nodes = hbody_nodes[:-1]
                 hb = self.block(hbody_nodes)
                 if reraises:
-                    hb = '(seqc %s (fun _ => Raise e__))' % hb
+                    hb = self.t_seq(hb, self.t_raise('e__'))
                 out = '(if %s then %s else %s)' % (test, hb, out)
+            if self.x:          # the handler continues from the state the body had reached when it raised
+                return '(match %s with XRaise e__ st => %s | r__ => r__ end)' % (body, out)
             return '(match %s with Raise e__ => %s | r__ => r__ end)' % (body, out)
         self.fail(node, 'statement outside the translated subset')
 
@@ -343,11 +365,21 @@ class FunctionTranslator:
         init = '{| ' + '; '.join('%s_%s := %s' % (px, v, i) for v, _t, i in self.locals) + ' |}'
         out.append('Definition %s %s : res (%s) :=' % (n, self.s['params'], self.s['returns']))
         out.append('  let st := %s in' % init)
-        out.append('  match (%s : res (ctl %s_st (%s_st * (%s)))) with' % (body, n, n, self.s.get('ret_type', self.s['returns'])))
-        out.append('  | Ok (Ret (st, r__)) => %s' % self.fill(self.s.get('finish', 'Ok r__')))
-        out.append('  | Ok (Normal st) | Ok (Brk st) | Ok (Cont st) => %s' % self.fill(self.s.get('falloff', 'Raise EUnmodelled')))
-        out.append('  | Raise e__ => Raise e__')
-        out.append('  end.')
+        rt = self.s.get('ret_type', self.s['returns'])
+        if self.x:
+            out.append('  match (%s : xres %s_st (ctl %s_st (%s_st * (%s)))) with' % (body, n, n, n, rt))
+            out.append('  | XOk (Ret (st, r__)) => %s' % self.fill(self.s.get('finish', 'Ok r__')))
+            out.append('  | XOk (Normal st) | XOk (Brk st) | XOk (Cont st) => %s'
+                       % self.fill(self.s.get('falloff', 'Raise EUnmodelled')))
+            out.append('  | XRaise e__ st => %s' % self.fill(self.s.get('on_raise', 'Raise e__')))
+            out.append('  end.')
+        else:
+            out.append('  match (%s : res (ctl %s_st (%s_st * (%s)))) with' % (body, n, n, rt))
+            out.append('  | Ok (Ret (st, r__)) => %s' % self.fill(self.s.get('finish', 'Ok r__')))
+            out.append('  | Ok (Normal st) | Ok (Brk st) | Ok (Cont st) => %s'
+                       % self.fill(self.s.get('falloff', 'Raise EUnmodelled')))
+            out.append('  | Raise e__ => Raise e__')
+            out.append('  end.')
         unused = [k for k in list(self.leaves) + list(self.stmt_leaves) if k not in self.used_leaves and k not in ('True', 'False')]
         return '\n'.join(out), unused
 
